@@ -144,6 +144,10 @@ let set_bytes (bytes : n list) (off : int) (nw : n list) : n list =
   let k = List.length nw in
   List.mapi (fun j b -> if j >= off && j < off + k then List.nth nw (j - off) else b) bytes
 
+let sampled n step inclusive =
+  let top = if inclusive then n + 1 else n in
+  List.filter (fun k -> step <= 1 || k < 48 || k + 48 >= n || k mod step = 0) (List.init top (fun k -> k))
+
 let types : (string, ty) Hashtbl.t = Hashtbl.create 256
 
 let run_case cid t h v ops =
@@ -166,6 +170,9 @@ let run_case cid t h v ops =
         let b x = if x then "1" else "0" in
         Printf.printf "%s tinfo pow2=%s wf=%s wt=%s deser=%s exh=%s unit=%s need=%s cover=%s\n" cid (b (units_pow2 t)) (b (wf t)) (b (wt t v))
           (b (deserializable dt)) (b (exhausted_in t v)) (hex_of_n (unit_of dt)) (hex_of_n (need t v)) (b (units_cover t))
+      | ["feed"] ->
+        let hx l = if l = [] then "-" else hex_of_bytes l in
+        Printf.printf "%s feed t=%s a=%s\n" cid (hx (tfeed dt)) (hx (align_feed dt))
       | ["schema"] ->
         let rs = schema_of evs in
         if out = SDone then
@@ -173,16 +180,16 @@ let run_case cid t h v ops =
             (List.length (List.filter (fun e -> e = EFlush) evs))
             (if debug_ok (evs_len evs) rs then "ok" else "panic")
         else Printf.printf "%s schema %s\n" cid (show_sout out)
-      | ["cuts"; base] ->
+      | ["cuts"; base; step] ->
         (* every strict prefix, both modes: only the outcome class is kept *)
         if out = SDone then begin
           let nb = List.length bytes in
           let fc = ref [] and ec = ref [] in
-          for k = nb - 1 downto 0 do
+          List.iter (fun k ->
             let pre = take k bytes in
             fc := (match deser_full_top h dt pre with Ok _ -> "OK" | Err e -> show_err e | Panic _ -> "P") :: !fc;
-            ec := (match deser_eps_top (n_of_hex base) h dt pre with Ok _ -> "OK" | Err e -> show_err e | Panic _ -> "P") :: !ec
-          done;
+            ec := (match deser_eps_top (n_of_hex base) h dt pre with Ok _ -> "OK" | Err e -> show_err e | Panic _ -> "P") :: !ec)
+            (List.rev (sampled nb (int_of_string step) false));
           Printf.printf "%s cuts:%s full=%s eps=%s\n" cid base (rle !fc) (rle !ec)
         end
       | ["flips"; base] ->
@@ -222,7 +229,15 @@ let run_case cid t h v ops =
             Printf.printf "%s tags:%s %s\n" cid base (String.concat " " parts)
           end
         end
-      | "wfault" :: _ ->
+      | ["cross"; base; tidu; thu; ahu] ->
+        if out = SDone then begin
+          let tu = sertype (Hashtbl.find types tidu) in
+          let hu = { h_type_hash = n_of_hex thu; h_align_hash = n_of_hex ahu; h_name = [] } in
+          let f = code_of show_val (deser_full_top hu tu bytes)
+          and e = code_of (fun v -> show_val (erase v)) (deser_eps_top (n_of_hex base) hu tu bytes) in
+          Printf.printf "%s cross:%s full=%s eps=%s\n" cid tidu f e
+        end
+      | "wfault" :: wargs ->
         if out = SDone then begin
           let nb = List.length bytes in
           let rec nat_of i = if i = 0 then O else S (nat_of (i - 1)) in
@@ -234,10 +249,11 @@ let run_case cid t h v ops =
              | SROk _ -> "OK" | SRWriteError -> "WriteError" | SRPanic -> "PANIC"
              | SRIterMismatch (a, e) -> Printf.sprintf "IteratorLengthMismatch:%s:%s" (hex_of_n a) (hex_of_n e)
              | SRNoOutcome -> "NOOUTCOME") ^ "/" ^ pre in
-          let codes = List.init (nb + 1) (fun k ->
+          let step = (match List.rev wargs with st :: _ -> (try int_of_string st with _ -> 1) | [] -> 1) in
+          let codes = List.map (fun k ->
               let c = code (run_fail_after (n_of_int k) fuel (evs, out)) in
               let want = if k < nb then Printf.sprintf "WriteError/p%d" k else Printf.sprintf "OK/p%d" nb in
-              if c = want then "ok" else c) in
+              if c = want then "ok" else c) (sampled nb step true) in
           let extra = [
             "flush=" ^ code (run_flush_fail fuel (evs, out));
             "short1=" ^ code (run_short (n_of_int 1) N0 fuel (evs, out));
